@@ -236,9 +236,12 @@ pub fn suite_paths(g: &G, grid: u8) -> Value {
             let a = guarded(|| ap_ans(dijkstra::multi_source(g, weighted, names.clone(), target_o(t), cutoff_f(c2, scale), fo, wp), scale));
             ms.push(json!({"weighted": weighted, "sources": names, "target": t, "cutoff": c2, "first_only": fo, "with_paths": wp, "ans": a}));
         }
-        // multi_source over proper subsets (first node, last two nodes)
+        // multi_source over proper subsets (first node, last two nodes), over all nodes in reversed order, and over
+        // a list that is out of insertion order and names one source twice
         if names.len() >= 2 {
-            for srcs in [vec![names[0]], names[names.len() - 2..].to_vec()] {
+            let reversed: Vec<i32> = names.iter().rev().copied().collect();
+            let twice: Vec<i32> = vec![names[names.len() - 1], names[0], names[names.len() - 1]];
+            for srcs in [vec![names[0]], names[names.len() - 2..].to_vec(), reversed, twice] {
                 let a = guarded(|| ap_ans(dijkstra::multi_source(g, weighted, srcs.clone(), None, None, false, true), scale));
                 ms.push(json!({"weighted": weighted, "sources": srcs, "target": 0, "cutoff": -1, "first_only": false, "with_paths": true, "ans": a}));
             }
